@@ -292,6 +292,19 @@ func checkPoly(c *polyCase) (string, string) {
 		dilithium.VerifNTT(&nb)
 		var prod [256]int32
 		dilithium.VerifPointwise(&prod, &na, &nb)
+		// the same product written into an output that already holds other data (the library re-uses its temporaries)
+		dirty := nb
+		for i := range dirty {
+			dirty[i] = dirty[i]*3 + 7
+		}
+		dilithium.VerifPointwiseInto(&dirty, &na, &nb)
+		if dirty != prod {
+			for i := range dirty {
+				if dirty[i] != prod[i] {
+					return "pointwise-depends-on-output", fmt.Sprintf("pointwise product slot %d: %d into a fresh output, %d into an output that held other data (operands %d, %d)", i, prod[i], dirty[i], na[i], nb[i])
+				}
+			}
+		}
 		dilithium.VerifInvNTTToMont(&prod)
 		for i := range prod {
 			if dilref.Mod(int64(prod[i])) != want[i] || abs64(int64(prod[i])) >= q {
@@ -317,6 +330,28 @@ func checkPoly(c *polyCase) (string, string) {
 				return "ntt-inverse", fmt.Sprintf("invNTTToMont(ntt(a))[%d] = %d, want a[%d]*2^32 mod q", i, back[i], i)
 			}
 		}
+	case "transforms-direct":
+		// A is taken as it is (zeros planted by the generator): forward transform against literal evaluation,
+		// inverse transform against literal interpolation (times 2^32), no product in between
+		ra := toRef(c.A)
+		fw := a
+		dilithium.VerifNTT(&fw)
+		evs := dilref.NTT(&ra)
+		for i := range fw {
+			if dilref.Mod(int64(fw[i])) != evs[i] {
+				return "ntt-forward", fmt.Sprintf("ntt(a)[%d] = %d, evaluation gives %d (input has zeros at planted positions)", i, fw[i], evs[i])
+			}
+		}
+		inv := a
+		dilithium.VerifPolyReduce(&inv)
+		rin := toRef(inv[:])
+		want := dilref.INTT(&rin)
+		dilithium.VerifInvNTTToMont(&inv)
+		for i := range inv {
+			if dilref.Mod(int64(inv[i])) != dilref.Mod(want[i]*((1<<32)%q)) {
+				return "ntt-inverse", fmt.Sprintf("invNTTToMont(a)[%d] = %d, interpolation*2^32 gives %d (input has zeros at planted positions)", i, inv[i], dilref.Mod(want[i]*((1<<32)%q)))
+			}
+		}
 	case "chknorm":
 		got := dilithium.VerifPolyChkNorm(&a, c.Bnd)
 		want := 0
@@ -338,7 +373,7 @@ func checkPoly(c *polyCase) (string, string) {
 
 func drawPoly(rt *rapid.T, label string) []int32 {
 	p := make([]int32, 256)
-	kind := rapid.SampledFrom([]string{"uniform", "all+(q-1)", "all-(q-1)", "alternating", "sparse+-1", "eta", "gamma1", "t1shifted", "single"}).Draw(rt, label+"Kind")
+	kind := rapid.SampledFrom([]string{"uniform", "all+(q-1)", "all-(q-1)", "alternating", "sparse+-1", "eta", "gamma1", "t1shifted", "single", "linear-factor"}).Draw(rt, label+"Kind")
 	x := rapid.Uint64().Draw(rt, label+"Seed") | 1
 	next := func(n int64) int64 { x ^= x << 13; x ^= x >> 7; x ^= x << 17; return int64(x>>1) % n }
 	for i := range p {
@@ -367,6 +402,14 @@ func drawPoly(rt *rapid.T, label string) []int32 {
 	if kind == "single" {
 		p[next(256)] = int32(next(2*q-1) - (q - 1))
 	}
+	if kind == "linear-factor" {
+		// X - r for an evaluation point r: its transform has an exact zero in one slot
+		for i := range p {
+			p[i] = 0
+		}
+		ev := dilref.NTT(&dilref.Poly{0, 1}) // slot m holds the m-th evaluation point
+		p[0], p[1] = int32(dilref.Centre(-ev[next(256)])), 1
+	}
 	return p
 }
 
@@ -386,10 +429,21 @@ func TestNTTProducts(t *testing.T) {
 	checks := r.PerShard(r.Pick(2400, 100000))
 	r.Rapid(t, "ntt", checks, func(rt *rapid.T) {
 		c := &polyCase{Kind: "product", A: drawPoly(rt, "a"), B: drawPoly(rt, "b")}
+		if rapid.IntRange(0, 2).Draw(rt, "direct") == 0 {
+			// dense data with exact zeros planted at drawn slots (odd, even, first, last)
+			c = &polyCase{Kind: "transforms-direct", A: drawPoly(rt, "a")}
+			for k := rapid.IntRange(1, 6).Draw(rt, "zeros"); k > 0; k-- {
+				c.A[rapid.SampledFrom([]int{0, 1, 2, 3, 7, 127, 128, 129, 200, 254, 255, -1}).Draw(rt, "slot")&255] = 0
+			}
+			if c.A[0] == 0 && rapid.Bool().Draw(rt, "randomSlot") {
+				c.A[rapid.IntRange(0, 255).Draw(rt, "anySlot")] = 0
+			}
+			r.Count("direct_transform_cases_with_planted_zeros", 1)
+		}
 		key, msg := checkPoly(c)
 		r.Eval(1)
-		r.NonTrivial("ntt", fmt.Sprint(c.A[:8], c.B[:8]))
-		r.Sample(map[string]any{"a_first8": c.A[:8], "b_first8": c.B[:8]})
+		r.NonTrivial("ntt", c.Kind, fmt.Sprint(c.A[:8], len(c.B)))
+		r.Sample(map[string]any{"kind": c.Kind, "a_first8": c.A[:8]})
 		r.Check(rt, key == "", key, c, "%s", msg)
 	})
 }
